@@ -576,3 +576,58 @@ def _mk_multipart(family):
 
 for _f in ('soap11', 'soap12'):
     _mk_multipart(_f)
+
+
+# ------------------------------------------------------------------------------------------ through a plain ServerBase
+
+def _mk_serverbase(family):
+    @obligation('C10.serverbase.%s' % family, targets=['spyne.server._base:ServerBase.generate_contexts',
+                                                       'spyne.server._base:ServerBase.get_in_object',
+                                                       'spyne.server._base:ServerBase.get_out_object',
+                                                       'spyne.server._base:ServerBase.get_out_string'],
+                bounded="the malformed request kinds of the family (truncated, wrong envelope, scalar / null / list / empty "
+                        "bodies, unknown method, invalid argument) and 8 byte-level hostile bodies",
+                desc="through a plain ServerBase (no HTTP): a malformed or hostile request never makes one of the "
+                     "transport-facing calls raise; it ends in a Client-family fault document and the user function does "
+                     "not run")
+    def ob(c):
+        from .pipeline import Harness, requests_for
+        kinds = sorted(k for k in requests_for(family) if k not in ('declared_too_long', 'content_length_not_a_number'))
+        kind = c.choose(kinds + ['invalid_utf8', 'nul_bytes', 'random', 'bom'], 'request_kind')
+        h = Harness(c, family, user_outcomes=['return'])
+        if kind in ('invalid_utf8', 'nul_bytes', 'random', 'bom'):
+            valid = requests_for(family)['valid'][3]
+            body = {'invalid_utf8': valid[:10] + b'\xff\xfe\xc3' + valid[10:], 'nul_bytes': valid.replace(b'i', b'\x00', 1),
+                    'random': bytes((i * 37 + 11) % 256 for i in range(200)), 'bom': b'\xef\xbb\xbf' + valid}[kind]
+            import contracts.pipeline as P
+            real = P.requests_for
+            P.requests_for = lambda f: dict(real(f), **{kind: ('POST', '/', '', body, 'x')})
+            try:
+                out = h.run_serverbase(kind)
+            finally:
+                P.requests_for = real
+        else:
+            out = h.run_serverbase(kind)
+        c.check('no_exception_escapes', out.returned, detail=(kind, repr(out)))
+        if not out.returned:
+            return
+        ran = sum(1 for t in c.trace if t[0] == 'user_fn')
+        doc = None
+        try:
+            doc = faultdoc.decode_fault(family, out.value) if out.value else None
+        except Exception:
+            doc = None
+        if kind == 'valid':
+            c.check('valid_request_runs_the_function', ran == 1 and doc is None, detail=(ran, out.value[:200]))
+        elif doc is not None:
+            code = doc.get('faultcode') or ''
+            c.check('fault_is_client_family', code == 'Client' or code.startswith('Client.'), detail=(kind, out.value[:200]))
+            c.check('user_function_not_run_on_fault', ran == 0, detail=kind)
+        else:
+            # a few odd bodies are readable requests (a BOM in front of JSON is not): then the function ran once
+            c.check('no_fault_means_the_request_was_served', ran == 1, detail=(kind, out.value[:200]))
+    return ob
+
+
+for _f in ('json', 'yaml', 'msgpack', 'msgpackrpc', 'xml', 'soap11', 'soap12'):
+    _mk_serverbase(_f)
